@@ -81,7 +81,7 @@ def run(ctx):
     # the data-processing semantics of the specification against the property's wording (no AddWithCarry), on the grid
     # opcode x S x carry x operand-2 form x boundary operands; then the same grid is executed by the real code
     nv = '3' if q else '6'
-    ctx.mc('MC_DP', constants={'GEN': 'FALSE', 'NV': nv}, coverage=False, timeout=3000)
+    # one run: the invariants are checked and (GEN) every scenario is printed
     rs = ctx.mc('MC_DP', constants={'GEN': 'TRUE', 'NV': nv}, coverage=False, timeout=3000)
     grid = [x for x in tlc.printed_json(rs['out']) if isinstance(x, dict) and 'w' in x]
     if len(grid) < 15000:
